@@ -30,8 +30,19 @@ def run(ctx):
     for cw in fx.bodies(r"^clap_builder::output::textwrap::core::ch_width$"):
         if cw.calls_to(r"UnicodeWidthChar>?::width$|unicode_width::"):
             e = strip_transparent(expr(cw, 0))
-            defs = cw.def_sites(0)
-            res.check(len(defs) == 1 and re.fullmatch(r"unwrap_or\(width\(ch\),0\)|unwrap_or_default\(width\(ch\)\)", e) is not None, "R20.4", "ch_width-is-table-width", cw.where(), "ch_width = UnicodeWidthChar::width(ch).unwrap_or(0)",
+            defs = [d for d in cw.def_sites(0) if d[0] in cw.reachable(0) and not cw.blocks[d[0]]["cleanup"]]
+            okw = len(defs) == 1 and re.fullmatch(r"unwrap_or\(width\(ch\),0\)|unwrap_or_default\(width\(ch\)\)", e) is not None
+            if not okw and len(defs) >= 1:
+                # the `match width(ch) { Some(w) => w, None => 0 }` form: every result is the table's payload, or 0 on the table's None edge
+                def one(d):
+                    rv = d[3]
+                    if not isinstance(rv, dict) or rv["k"] != "use":
+                        return False
+                    if op_int(rv["op"]) == 0:
+                        return any(re.match(r"^(V0|!V1):width\(ch\)$", g) for g in guard_strs(cw, d[0]))
+                    return re.fullmatch(r"width\(ch\)#Some\.0", expr(cw, rv["op"])) is not None
+                okw = all(one(d) for d in defs)
+            res.check(okw, "R20.4", "ch_width-is-table-width", cw.where(), "ch_width = UnicodeWidthChar::width(ch).unwrap_or(0)",
                       "ch_width has %d result definitions (%s): a path that does not ask the width table decides the width of some characters" % (len(defs), e[:80]))
     lw = fx.body("clap_builder::output::textwrap::wrap_algorithms::LineWrapper::wrap")
     # ---- R20.5c (name-independent) a line break needs a position INSIDE this call: `wrap` is called once per text block of a styled line
